@@ -78,7 +78,10 @@ def impl_settle(case):
 
     def balances():
         return {p: case["bal"][p] for p in order}
-    pot = Pot(n, f, case["cap"], balances())
+    try:
+        pot = Pot(n, f, case["cap"], balances())
+    except Exception as e:
+        return {"exc": type(e).__name__, "msg": "constructing the pot failed: " + str(e)[:80], "rake_exc": type(e).__name__}
     try:
         if case.get("twice"):
             # the rake query is read-only: asking twice (also once for an unraked pot) gives the same answer
@@ -162,6 +165,8 @@ class C14(Prop):
 
     def gen_case(self, rng, small=False):
         n = rng.randrange(2, 5 if small else 10)
+        if not small and rng.random() < 0.05:
+            n = rng.choice([10, 11, 12, 15, 23])
         bal = gen_balances(rng, n, small)
         if max(bal) == 0:
             bal[rng.randrange(n)] = rng.randrange(1, 9)
@@ -324,6 +329,8 @@ class C02(Prop):
 
     def gen_case(self, rng, small=False):
         n = rng.randrange(2, 5 if small else 10)
+        if not small and rng.random() < 0.05:
+            n = rng.choice([10, 11, 12, 15, 23])          # as many seats as a deck can serve
         bal = gen_balances(rng, n, small)
         if max(bal) == 0:
             bal[rng.randrange(n)] = rng.randrange(1, 9)
